@@ -15,6 +15,7 @@ class StdModel:
         self.rit_types = {}
         self.chr_types = set()
         self.need_chr = False
+        self.strs_mode = False   # std::string as abstract value with sampled contracts (model/xv_strs.h) instead of {data,size} memory
 
     # ----- types -----
     def vec_name(self, el_ct):
@@ -131,7 +132,10 @@ class StdModel:
             raise Unsupported('std::vector::' + name)
         if own in ('std::basic_string', 'std::__cxx11::basic_string'):
             self.used.add('std::string::' + name)
-            a = [em.rv_or_lv(x) for x in args]
+            # defaulted trailing arguments of the members modelled here are all npos
+            a = ['(~0ul)' if em.skip_wrappers(x).get('kind') == 'CXXDefaultArgExpr' else em.rv_or_lv(x) for x in args]
+            if self.strs_mode and name not in ('size', 'length', 'empty', 'find_last_of', 'rfind', 'substr', 'assign', 'operator='):
+                raise Unsupported('std::string::' + name + ' in the abstract-value string model')
             if name == 'push_back':
                 return 'xv_str_push_back(%s, %s)' % (objp, a[0])
             if name in ('size', 'length'):
@@ -144,7 +148,19 @@ class StdModel:
                 return '(&(%s)->data[%s])' % (objp, a[0])
             if name == 'empty':
                 return '((%s)->size == 0)' % objp
-            raise Unsupported('std::string::' + name)
+            ptypes = [em.ctype(dq(x['type'])) for x in args]
+            if name in ('find_last_of', 'rfind') and len(a) == 2:
+                if ptypes[0] == 'char':
+                    return 'xv_strs_flo_ch(%s, %s, %s)' % (objp, a[0], a[1])
+                if ptypes[0].endswith('*') and name == 'find_last_of':
+                    return 'xv_strs_flo_set(%s, %s, %s)' % (objp, a[0], a[1])
+            if name == 'substr' and len(a) == 2:
+                return em.model_call('xv_strs_substr', [objp, a[0], a[1]], 'xv_str', maythrow=True)
+            if name == 'assign' and len(a) == 2 and ptypes[0].endswith('*'):
+                return '(xv_strs_assign_n(%s, %s, %s), %s)' % (objp, a[0], a[1], objp)
+            if name == 'operator=' and len(a) == 1 and ptypes[0].endswith('*'):
+                return '(xv_strs_assign_cstr(%s, %s), %s)' % (objp, a[0], objp)
+            raise Unsupported('std::string::' + name + '(' + ', '.join(ptypes) + ')')
         if own == 'std::array':
             self.used.add('std::array::' + name)
             a = [em.rv_or_lv(x) for x in args]
@@ -206,6 +222,15 @@ class StdModel:
             return '0'
         if q in ('std::move', 'std::forward'):
             return em.addr(args[0])
+        if q == 'std::operator+' and len(args) == 2 and self.type(strip_cv(dq(args[0]['type'])).rstrip('& '), em) == 'xv_str' and em.ctype(dq(args[1]['type'])) == 'char':
+            self.used.add('std::operator+(std::string, char)')
+            return 'xv_strs_plus_ch(%s, %s)' % (em.addr(args[0]), em.rv_or_lv(args[1]))
+        if q in ('readlink',):
+            self.used.add('readlink (POSIX): contract in the unit')
+            return 'xv_readlink(%s)' % ', '.join(em.rv_or_lv(x) for x in args)
+        if q in ('memset', 'std::memset'):
+            self.used.add(q)
+            return 'memset(%s)' % ', '.join(em.rv_or_lv(x) for x in args)
         if q == 'std::addressof' or q == 'std::__addressof':
             return em.addr(args[0])
         if q.startswith('std::char_traits::') or q in ('std::copy', 'std::copy_backward'):
@@ -322,13 +347,13 @@ class StdModel:
         if self.type(t, em) == 'xv_str':
             if len(args) == 0:
                 self.used.add('std::string()')
-                return 'xv_str_init(%s)' % target
+                return ('xv_strs_init(%s)' if self.strs_mode else 'xv_str_init(%s)') % target
             if len(args) == 1 and self.type(strip_cv(dq(args[0]['type'])).rstrip('&'), em) == 'xv_str':
                 if n.get('elidable') or args[0].get('valueCategory') == 'xvalue':
                     self.used.add('std::string(move / elided copy) = transfer of the storage')
                     return '(*%s = *%s)' % (target, em.addr(args[0]))
                 self.used.add('std::string(copy)')
-                return 'xv_str_copy(%s, %s)' % (target, em.addr(args[0]))
+                return ('xv_strs_copy(%s, %s)' if self.strs_mode else 'xv_str_copy(%s, %s)') % (target, em.addr(args[0]))
             raise Unsupported('std::string constructor ' + n.get('ctorType', {}).get('qualType', ''))
         if t.startswith('std::'):
             if len(args) == 1 and norm_t(dq(args[0]['type'])).rstrip('&') == norm_t(t):
@@ -344,7 +369,7 @@ class StdModel:
         t = strip_cv(tstr)
         ct = self.type(t, em)
         if ct == 'xv_str':
-            return 'xv_str_init(%s)' % target
+            return ('xv_strs_init(%s)' if self.strs_mode else 'xv_str_init(%s)') % target
         if ct and ct.startswith('xv_vec_'):
             return '((%s)->data = 0, (%s)->size = 0)' % (target, target)
         if ct:
